@@ -109,6 +109,8 @@ def three_ways_side_check(r, tier):
         (0, "lambda e: len(e.jets).to_bytes()", "pass"), (0, "lambda e: '{}'.format(e.x)", "pass"), (0, "lambda e: 'abc'.x[1](2)", "pass"), (0, "lambda e: (1.5).is_integer()", "pass"),
         (0, "lambda e: ('a' + 'b') if e.ok else 'c'", "pass"), (0, "lambda e: '-' * 3 if e.flag else 'none'", "pass"), (0, "lambda e: 3 * '-' if e.flag else 'none'", "pass"),
         (0, "lambda e: '%d' % 3 if e.flag else 'none'", "pass"), (0, "lambda e: b'-' * 3 if e.flag else b'n'", "pass"), (0, "lambda e: '-' * 3 if e.flag else 1", "ValueError"), (2, "lambda e: ('a' + e.name).startswith('ab')", "ValueError"),
+        (0, "lambda e: {'pt': e.a, 'jet-eta': e.b}['jet-eta']", "pass"), (0, "lambda e: {'pt': e.a, 'class': e.b}['class'] + {'pt': e.a, 'jet eta': e.b}.pt", "pass"),
+        (1, "lambda e: {'pt': e.a, 1: e.js}[1]", "pass"),
         (0, "lambda e: {'a': e.x}[[1]]", "ValueError"), (1, "lambda e: {'a': e.x}[[1]]", "ValueError"),
         # the one parameter may be positional-only; anything that is not exactly one positional parameter is refused
         (0, "lambda e, /: e.x", "pass"), (1, "lambda e, /: e.jets", "pass"), (0, "lambda *e: e", "ValueError"), (0, "lambda e, *, k=1: e.x", "ValueError"), (0, "lambda e, f: e.x", "ValueError"),
